@@ -74,15 +74,12 @@ impl Filter for TruncateFilter {
 
         let length = args.length.unwrap_or(50) as usize;
         let truncate_string = args.ellipsis.unwrap_or_else(|| "...".into());
-        let diff = if length >= truncate_string.len() {
-            length - truncate_string.len()
-        } else {
-            0
-        };
+        // lengths are counted in characters, never in bytes
+        let diff = length.saturating_sub(truncate_string.chars().count());
         let l = cmp::max(diff, 0);
 
         let input_string = input.to_kstr();
-        let result = if length < input_string.len() {
+        let result = if length < input_string.chars().count() {
             let result = UnicodeSegmentation::graphemes(input_string.as_str(), true)
                 .take(l)
                 .collect::<Vec<&str>>()
